@@ -301,3 +301,252 @@ Section Toggle.
       + intros H j x Hj Hx. rewrite (H j Hj) in Hx. injection Hx as <-. reflexivity.
   Qed.
 End Toggle.
+
+Lemma rot_surj Q c m : m < Q -> exists j, j < Q /\ (j + c) mod Q = m.
+Proof.
+  intros Hm. assert (HQ : Q <> 0) by lia.
+  exists ((m + Q - c mod Q) mod Q). split; [apply N.mod_lt, HQ|].
+  rewrite N.add_mod_idemp_l by exact HQ.
+  pose proof (N.div_mod c Q HQ) as E. pose proof (N.mod_lt c Q HQ) as L.
+  replace (m + Q - c mod Q + c) with (m + (1 + c / Q) * Q) by nia.
+  rewrite N.mod_add by exact HQ. apply N.mod_small, Hm.
+Qed.
+
+Section SetFirstZeros.
+  Variable g : geom.
+  Hypothesis WF : wf_geom g.
+
+  (* ---------- orders 0..6: one row ---------- *)
+  Lemma sfz_loop_some rows start k : rows_ok g rows -> forall n i rows' off,
+    sfz_loop g rows start k i n = Some (rows', off) ->
+    exists r e v p, r < ROWS g /\ nth_error rows (nn r) = Some e /\ fza e k = Some (v, p) /\
+                    rows' = upd rows (nn r) v /\ off = r * 64 + p.
+  Proof.
+    intros Hr. induction n as [|n IH]; intros i rows' off H; cbn [sfz_loop] in H; [discriminate|].
+    cbv zeta in H. unfold row_at in H.
+    set (r := (i + start mod ROWS g) mod ROWS g) in *.
+    destruct (nth_error rows (nn r)) as [e|] eqn:E; [|discriminate].
+    destruct (fza e k) as [[v p]|] eqn:F.
+    - injection H as <- <-. exists r, e, v, p. repeat split; try assumption.
+      apply N.mod_lt. pose proof (ROWS_pos g WF). lia.
+    - apply (IH _ _ _ H).
+  Qed.
+
+  Lemma sfz_loop_none rows start k : rows_ok g rows -> forall n i,
+    sfz_loop g rows start k i n = None ->
+    forall i', i <= i' < i + N.of_nat n ->
+    exists e, nth_error rows (nn ((i' + start mod ROWS g) mod ROWS g)) = Some e /\ fza e k = None.
+  Proof.
+    intros Hr. induction n as [|n IH]; intros i H i' Hi'; [lia|].
+    cbn [sfz_loop] in H. cbv zeta in H. unfold row_at in H.
+    assert (Hlt : (i + start mod ROWS g) mod ROWS g < ROWS g).
+    { apply N.mod_lt. pose proof (ROWS_pos g WF). lia. }
+    destruct (row_exists g WF rows _ Hr Hlt) as (e & E). rewrite E in H.
+    destruct (fza e k) as [[v p]|] eqn:F; [discriminate|].
+    destruct (N.eq_dec i' i) as [->|Hne]; [exists e; split; assumption|].
+    apply (IH _ H). lia.
+  Qed.
+
+  Lemma sfz_small_some rows start k rows' off :
+    rows_ok g rows -> (k <= 6)%nat ->
+    sfz_loop g rows start k 0 (length rows) = Some (rows', off) ->
+    off mod pow2 k = 0 /\ off + pow2 k <= HF g /\ rows_ok g rows' /\
+    N.land (rows_bits rows) (blk off (pow2 k)) = 0 /\
+    rows_bits rows' = N.lor (rows_bits rows) (blk off (pow2 k)).
+  Proof.
+    intros Hr Hk H.
+    destruct (sfz_loop_some rows start k Hr _ _ _ _ H) as (r & e & v & p & Hlt & E & F & -> & ->).
+    pose proof (rows_ok_nth g rows _ e Hr E) as He.
+    destruct (fza_some e k v p He Hk F) as (Hal & Hfit & Hfree & -> & _).
+    fold (pow2 k) in *. rewrite blk_block_mask in *.
+    unfold block_free in Hfree. rewrite blk_block_mask in Hfree. apply N.eqb_eq in Hfree.
+    destruct (row_block_set g rows _ e _ _ Hr E Hfit) as (Hok & Hbits).
+    pose proof (row_block_zero g rows _ e _ _ Hr E Hfit) as RB. rewrite of_nat_nn in Hbits, RB.
+    replace (r * 64 + p) with (64 * r + p) by lia.
+    split; [|split; [|split; [exact Hok|split; [apply RB, Hfree|exact Hbits]]]].
+    - assert (E64 : 64 = pow2 (6 - k) * pow2 k) by (change 64 with (pow2 6); apply pow2_split, Hk).
+      replace (64 * r + p) with (p + (r * pow2 (6 - k)) * pow2 k) by nia.
+      rewrite N.mod_add by apply pow2_nz. exact Hal.
+    - rewrite (HF_64 g WF). lia.
+  Qed.
+
+  Lemma sfz_small_none rows start k :
+    rows_ok g rows -> (k <= 6)%nat ->
+    sfz_loop g rows start k 0 (length rows) = None ->
+    forall off, off mod pow2 k = 0 -> off + pow2 k <= HF g ->
+    N.land (rows_bits rows) (blk off (pow2 k)) <> 0.
+  Proof.
+    intros Hr Hk H off Hal Hfit Hz.
+    pose proof (pow2_pos k) as Hp.
+    assert (Hrow : off / 64 < ROWS g).
+    { apply N.div_lt_upper_bound; [discriminate|]. rewrite <- (HF_64 g WF). lia. }
+    destruct (rot_surj (ROWS g) (start mod ROWS g) (off / 64) Hrow) as (j & Hj & Ej).
+    pose proof (sfz_loop_none rows start k Hr _ _ H j) as Hn.
+    rewrite (rows_ok_length g WF rows Hr) in Hn. destruct Hn as (e & E & F); [lia|].
+    rewrite Ej in E.
+    pose proof (rows_ok_nth g rows _ e Hr E) as He.
+    pose proof (small_block_in_row (off) k Hk Hal) as Hfit64.
+    assert (Hal64 : (off mod 64) mod pow2 k = 0).
+    { change 64 with (pow2 6). rewrite (pow2_split k 6 Hk), N.mul_comm.
+      rewrite mod_mod_mul; [exact Hal|apply pow2_nz|apply pow2_nz]. }
+    pose proof (fza_none e k He Hk F (off mod 64) Hal64 Hfit64) as Hnf.
+    unfold block_free in Hnf. rewrite blk_block_mask in Hnf. apply N.eqb_neq in Hnf. apply Hnf.
+    pose proof (row_block_zero g rows _ e _ _ Hr E Hfit64) as RB. rewrite of_nat_nn in RB.
+    apply RB. replace (64 * (off / 64) + off mod 64) with off by lia. exact Hz.
+  Qed.
+
+  (* ---------- orders above 6: chunks of whole rows ---------- *)
+  Lemma sfzr_loop_some rows nr : forall n c rows' off,
+    sfzr_loop rows nr c n = Some (rows', off) ->
+    exists c', (c <= c' < c + n)%nat /\ toggle_rows rows (c' * nr) nr false = Some rows' /\
+               off = N.of_nat (c' * nr) * 64.
+  Proof.
+    induction n as [|n IH]; intros c rows' off H; cbn [sfzr_loop] in H; [discriminate|].
+    destruct (forallb (fun v => v =? 0) (firstn nr (skipn (c * nr) rows))).
+    - destruct (toggle_rows rows (c * nr) nr false) as [r'|] eqn:T; [|discriminate].
+      injection H as <- <-. exists c. repeat split; [lia|lia|exact T].
+    - destruct (IH _ _ _ H) as (c' & Hc & T & E). exists c'. repeat split; try assumption; lia.
+  Qed.
+
+  Lemma chunk_zero_toggle rows nr c :
+    (c * nr + nr <= length rows)%nat ->
+    forallb (fun v => v =? 0) (firstn nr (skipn (c * nr) rows)) = true ->
+    toggle_rows rows (c * nr) nr false <> None.
+  Proof.
+    intros Hfit F. rewrite forallb_firstn_skipn_spec in F. rewrite toggle_rows_cas.
+    destruct (cas_all_complete nr rows (c * nr) 0 MAX64) as (es' & Es); [|congruence].
+    intros j Hj. destruct (nth_error rows j) as [v|] eqn:E.
+    - f_equal. apply N.eqb_eq. apply (F j v Hj E).
+    - apply nth_error_None in E. lia.
+  Qed.
+
+  Lemma sfzr_loop_none rows nr : forall n c,
+    ((c + n) * nr <= length rows)%nat ->
+    sfzr_loop rows nr c n = None ->
+    forall c', (c <= c' < c + n)%nat ->
+    forallb (fun v => v =? 0) (firstn nr (skipn (c' * nr) rows)) = false.
+  Proof.
+    induction n as [|n IH]; intros c Hlen H c' Hc; [lia|]. cbn [sfzr_loop] in H.
+    destruct (forallb (fun v => v =? 0) (firstn nr (skipn (c * nr) rows))) eqn:F.
+    - exfalso. apply (chunk_zero_toggle rows nr c); [nia|exact F|].
+      destruct (toggle_rows rows (c * nr) nr false); [discriminate|reflexivity].
+    - destruct (Nat.eq_dec c' c) as [->|Hne]; [exact F|].
+      apply (IH (S c)); [nia|exact H|lia].
+  Qed.
+
+  Lemma chunk_geom k : (6 < k)%nat -> (k <= hord g)%nat ->
+    let nr := Nat.pow 2 (k - 6) in let n := Nat.pow 2 (hord g - k) in
+    rows_nat g = (n * nr)%nat /\ pow2 k = 64 * N.of_nat nr /\ nr <> O /\
+    (Nat.div (rows_nat g) nr + (if Nat.eqb (Nat.modulo (rows_nat g) nr) 0 then 0 else 1) = n)%nat.
+  Proof.
+    intros Hk6 Hk nr n.
+    assert (E : rows_nat g = (n * nr)%nat).
+    { unfold rows_nat. subst n nr. rewrite <- Nat.pow_add_r. f_equal. lia. }
+    assert (Hnr : nr <> O) by (apply Nat.pow_nonzero; lia).
+    split; [exact E|]. split; [|split; [exact Hnr|]].
+    - rewrite (pow2_split 6 k) by lia. change (pow2 6) with 64. rewrite pow2_of_nat. subst nr. lia.
+    - rewrite E, Nat.div_mul, Nat.mod_mul by exact Hnr. cbn [Nat.eqb]. lia.
+  Qed.
+
+  Lemma sfz_big_some rows k rows' off :
+    rows_ok g rows -> (6 < k)%nat -> (k <= hord g)%nat ->
+    (let nr := Nat.pow 2 (k - 6) in
+     sfzr_loop rows nr 0 (Nat.div (length rows) nr + (if Nat.eqb (Nat.modulo (length rows) nr) 0 then 0 else 1)))
+    = Some (rows', off) ->
+    off mod pow2 k = 0 /\ off + pow2 k <= HF g /\ rows_ok g rows' /\
+    N.land (rows_bits rows) (blk off (pow2 k)) = 0 /\
+    rows_bits rows' = N.lor (rows_bits rows) (blk off (pow2 k)).
+  Proof.
+    intros Hr Hk6 Hk H. cbv zeta in H.
+    destruct (chunk_geom k Hk6 Hk) as (Elen & Ep & Hnr & En). cbv zeta in *.
+    set (nr := Nat.pow 2 (k - 6)) in *. set (n := Nat.pow 2 (hord g - k)) in *.
+    destruct Hr as (Hl & Hf). rewrite Hl, En in H. assert (Hr : rows_ok g rows) by (split; assumption).
+    destruct (sfzr_loop_some rows nr _ _ _ _ H) as (c' & Hc & T & ->).
+    rewrite toggle_rows_cas in T. apply cas_all_some in T. destruct T as (Hlen & Hz & Hn).
+    assert (Hfit : (c' * nr + nr <= length rows)%nat).
+    { rewrite Hl, Elen. nia. }
+    destruct (rows_range_set g rows _ _ rows' Hr Hlen Hn) as (Hok & Hbits).
+    replace (N.of_nat (c' * nr) * 64) with (64 * N.of_nat (c' * nr)) by lia.
+    rewrite Ep. split; [|split; [|split; [exact Hok|split; [|exact Hbits]]]].
+    - rewrite Nat2N.inj_mul. replace (64 * (N.of_nat c' * N.of_nat nr)) with (N.of_nat c' * (64 * N.of_nat nr)) by lia.
+      apply N.mod_mul. lia.
+    - rewrite (HF_64 g WF), (ROWS_nat g WF), <- Hl. lia.
+    - apply (rows_range_zero g rows _ _ Hr Hfit). exact Hz.
+  Qed.
+
+  Lemma sfz_big_none rows k :
+    rows_ok g rows -> (6 < k)%nat -> (k <= hord g)%nat ->
+    (let nr := Nat.pow 2 (k - 6) in
+     sfzr_loop rows nr 0 (Nat.div (length rows) nr + (if Nat.eqb (Nat.modulo (length rows) nr) 0 then 0 else 1)))
+    = None ->
+    forall off, off mod pow2 k = 0 -> off + pow2 k <= HF g ->
+    N.land (rows_bits rows) (blk off (pow2 k)) <> 0.
+  Proof.
+    intros Hr Hk6 Hk H off Hal Hfit Hz. cbv zeta in H.
+    destruct (chunk_geom k Hk6 Hk) as (Elen & Ep & Hnr & En). cbv zeta in *.
+    set (nr := Nat.pow 2 (k - 6)) in *. set (n := Nat.pow 2 (hord g - k)) in *.
+    destruct Hr as (Hl & Hf). rewrite Hl, En in H. assert (Hr : rows_ok g rows) by (split; assumption).
+    pose proof (aligned_mul off (pow2 k) (pow2_nz k) Hal) as Eo.
+    set (c := off / pow2 k) in *.
+    assert (Hc : c < N.of_nat n).
+    { rewrite (HF_64 g WF), (ROWS_nat g WF), Elen in Hfit. rewrite Eo, Ep in Hfit. nia. }
+    assert (Eoff : off = 64 * N.of_nat (nn c * nr)).
+    { rewrite Eo, Ep, Nat2N.inj_mul, of_nat_nn. lia. }
+    assert (Hfitr : (nn c * nr + nr <= length rows)%nat).
+    { rewrite Hl, Elen. unfold nn. nia. }
+    rewrite Eoff, Ep in Hz. apply (rows_range_zero g rows _ _ Hr Hfitr) in Hz.
+    assert (F : forallb (fun v => v =? 0) (firstn nr (skipn (nn c * nr) rows)) = false).
+    { apply (sfzr_loop_none rows nr n 0%nat); [rewrite Hl, Elen; lia|exact H|unfold nn; lia]. }
+    assert (Tr : forallb (fun v => v =? 0) (firstn nr (skipn (nn c * nr) rows)) = true).
+    { apply forallb_firstn_skipn_spec. intros j x Hj Hx. rewrite (Hz j Hj) in Hx.
+      injection Hx as <-. reflexivity. }
+    congruence.
+  Qed.
+
+  (* ---------- set_first_zeros ---------- *)
+  Theorem bf_sfz_some rows start k rows' off :
+    rows_ok g rows -> (k <= hord g)%nat ->
+    bf_set_first_zeros g rows start k = Some (rows', off) ->
+    off mod pow2 k = 0 /\ off + pow2 k <= HF g /\ rows_ok g rows' /\
+    N.land (rows_bits rows) (blk off (pow2 k)) = 0 /\
+    rows_bits rows' = N.lor (rows_bits rows) (blk off (pow2 k)).
+  Proof.
+    intros Hr Hk H. unfold bf_set_first_zeros in H.
+    destruct (Nat.leb_spec k 6) as [Hk6|Hk6].
+    - apply (sfz_small_some rows start k rows' off Hr Hk6 H).
+    - apply (sfz_big_some rows k rows' off Hr Hk6 Hk H).
+  Qed.
+
+  Theorem bf_sfz_none rows start k :
+    rows_ok g rows -> (k <= hord g)%nat ->
+    bf_set_first_zeros g rows start k = None ->
+    forall off, off mod pow2 k = 0 -> off + pow2 k <= HF g ->
+    N.land (rows_bits rows) (blk off (pow2 k)) <> 0.
+  Proof.
+    intros Hr Hk H. unfold bf_set_first_zeros in H.
+    destruct (Nat.leb_spec k 6) as [Hk6|Hk6].
+    - apply (sfz_small_none rows start k Hr Hk6 H).
+    - apply (sfz_big_none rows k Hr Hk6 Hk H).
+  Qed.
+
+  Lemma bf_sfz_count rows start k rows' off :
+    rows_ok g rows -> (k <= hord g)%nat ->
+    bf_set_first_zeros g rows start k = Some (rows', off) ->
+    bf_count_zeros rows' + pow2 k = bf_count_zeros rows.
+  Proof.
+    intros Hr Hk H. destruct (bf_sfz_some rows start k rows' off Hr Hk H) as (_ & _ & Hok & Hz & Hb).
+    apply (count_zeros_set_block g WF rows rows' _ _ Hr Hok Hz Hb).
+  Qed.
+
+  (* if some aligned block is clear the search succeeds *)
+  Corollary bf_sfz_complete rows start k off :
+    rows_ok g rows -> (k <= hord g)%nat ->
+    off mod pow2 k = 0 -> off + pow2 k <= HF g ->
+    N.land (rows_bits rows) (blk off (pow2 k)) = 0 ->
+    exists rows' off', bf_set_first_zeros g rows start k = Some (rows', off').
+  Proof.
+    intros Hr Hk Hal Hfit Hz.
+    destruct (bf_set_first_zeros g rows start k) as [[rows' off']|] eqn:E; [eauto|].
+    exfalso. apply (bf_sfz_none rows start k Hr Hk E off Hal Hfit Hz).
+  Qed.
+End SetFirstZeros.
